@@ -1,13 +1,17 @@
 import TracklibVerif.Lemmas.ExprRpn
 import TracklibVerif.Lemmas.ExprExact
 import TracklibVerif.Lemmas.ExprErr
-import TracklibVerif.Lemmas.ExprPre9
+import TracklibVerif.Lemmas.ExprPre10
 import TracklibVerif.Lemmas.ExprExt
 import TracklibVerif.Lemmas.ExprAgg
+import TracklibVerif.Lemmas.ExprFn
+import TracklibVerif.Lemmas.ExprPrime
 /-! # C02 — algebraic feature expressions evaluate to ordinary arithmetic on the features
 
 Property theorems only (helpers: `Lemmas/Rpn.lean`, `Lemmas/RpnChars.lean`, `Lemmas/Expr.lean`, `Lemmas/ExprRpn.lean`,
-`Lemmas/ExprPointwise.lean`, `Lemmas/ExprErr.lean` (error direction), `Lemmas/ExprPre*.lean` (the rewriting chain)).
+`Lemmas/ExprPointwise.lean`, `Lemmas/ExprErr.lean` (error direction), `Lemmas/ExprPre*.lean` (the rewriting chain),
+`Lemmas/ExprAgg.lean` / `Lemmas/ExprFn.lean` (MIN MAX ARGMIN ARGMAX D I D2 against their documented formulas),
+`Lemmas/ExprPrime.lean` (the `'` shorthand)).
 Models: `Model/Rpn.lean` (token-level `utils.makeRPN`) and `Model/Expr.lean` (the rewriting chain,
 character-level `makeRPN`, `__evaluateRPN` / `__applyOperation`, the operator classes, the purge of
 `Track.operate`). The scalar type `α` is abstract (`Scalar α`): the statements hold for the `Float`
@@ -17,7 +21,9 @@ instance the driver runs as well as for exact arithmetic; no law of arithmetic i
 definitions of core/operators.py at each node (pointwise `+ - * / ^ < >` with the NaN-on-zero rule of
 `Divider`, number∘feature and feature∘number forms, `I D D2 ABS SQRT LOG DIODE SIGN EXP COS SIN TAN`,
 `SUM AVG VAR STD MSE RMSE MAD MIN MAX MEDIAN ARGMIN ARGMAX`); it has no stack, no temporaries and no parser.
-The theorems cover both directions (value: T1–T5, error: T6) and start from the string the user types (T7). -/
+The theorems cover both directions (value: T1–T5, error: T6) and start from the string the user types (T7, with the
+`'` shorthand: T11, and a sign typed directly after a binary `+` / `-`: T12). T8–T10 relate definitions as coded to their
+documented formulas: `MIN` / `MAX` (T8), `ARGMIN` / `ARGMAX` (T9, T9'), `D` / `I` / `D2` (T10). -/
 namespace TV.C02
 open TV.Expr TV.Rpn
 
@@ -353,6 +359,76 @@ theorem aggregate_sentinel (L : OrdLaws α) (T : TopLaws α) (c : List α) (h : 
     minL c = Scalar.inf ∧ maxL c = Scalar.neg Scalar.inf :=
   minmax_of_no_number L T c h
 
+/-- **T9 (`ARGMIN` / `ARGMAX` as coded are the documented `min {t | x(t) = min(x)}` / `min {t | x(t) = max(x)}`)**: under the
+order laws of the comparison, when the value `MIN` returns is below `+inf` (some number of the vector is), `ARGMIN` is
+the index of the *first* observation holding exactly that value — no earlier observation holds it —, and likewise
+`ARGMAX` with the value of `MAX` when it is above `-inf`. With T8 (that value is the minimum / maximum of the numbers of
+the vector, NaN skipped) this is the documented definition at every magnitude. -/
+theorem aggregate_argmin_argmax (L : OrdLaws α) (c : List α) :
+    (Scalar.lt (minL c) Scalar.inf = true →
+      ∃ k, argminL c = Scalar.ofNat k ∧ c[k]? = some (minL c) ∧ ∀ j, j < k → c[j]? ≠ some (minL c)) ∧
+    (Scalar.lt (Scalar.neg Scalar.inf) (maxL c) = true →
+      ∃ k, argmaxL c = Scalar.ofNat k ∧ c[k]? = some (maxL c) ∧ ∀ j, j < k → c[j]? ≠ some (maxL c)) :=
+  ⟨argminL_first L c, argmaxL_first L c⟩
+
+/-- **T9' (the residual case)**: when no value of the vector is strictly below `+inf` (above `-inf`) — an empty or all-NaN
+vector, for which the documented index is undefined, but also a vector whose least number is `+inf` itself — the loop
+never moves and `ARGMIN` (`ARGMAX`) is `0` whatever observation 0 holds: with a NaN there this is not an index of the
+extremum (finding `argextremum-equal-to-start-value`, e.g. `ARGMIN{[nan, inf, inf]} = 0`). -/
+theorem aggregate_arg_start (L : OrdLaws α) (c : List α) :
+    (Scalar.lt (minL c) Scalar.inf = false → argminL c = Scalar.ofNat 0) ∧
+    (Scalar.lt (Scalar.neg Scalar.inf) (maxL c) = false → argmaxL c = Scalar.ofNat 0) :=
+  ⟨argminL_start L c, argmaxL_start L c⟩
+
+/-- **T10 (`D`, `I`, `D2` as coded are their documented recurrences)**, for every scalar type and without any law of
+arithmetic: `D`: `y(0) = NaN`, `y(t) = x(t) - x(t-1)`; `I`: `y(0) = 0`, `y(t) = y(t-1) + x(t)`;
+`D2`: `y(t) = x(t+1) - 2·x(t) + x(t-1)` for `1 ≤ t ≤ n-2`, NaN at both ends; each returns one value per observation. -/
+theorem finite_differences (c : List α) (n : Nat) (hl : c.length = n) (hn : 2 ≤ n) :
+    ((diff c)[0]? = some Scalar.nan ∧ (diff c).length = n ∧
+      ∀ i a b, c[i]? = some a → c[i + 1]? = some b → (diff c)[i + 1]? = some (Scalar.sub b a)) ∧
+    ((integ c)[0]? = some Scalar.zero ∧
+      ∀ i x, c[i + 1]? = some x → (integ c)[i + 1]? = some (Scalar.add ((integ c).getD i Scalar.nan) x)) ∧
+    ((diff2 n c)[0]? = some Scalar.nan ∧ (diff2 n c)[n - 1]? = some Scalar.nan ∧ (diff2 n c).length = n ∧
+      ∀ i a b d, c[i]? = some a → c[i + 1]? = some b → c[i + 2]? = some d →
+        (diff2 n c)[i + 1]? = some (Scalar.add (Scalar.sub d (Scalar.mul Scalar.two b)) a)) := by
+  have hne : c ≠ [] := by intro h; rw [h] at hl; simp at hl; omega
+  obtain ⟨e1, e2, e3⟩ := diff2_ends n c hn hl
+  exact ⟨⟨diff_zero c, by rw [diff_length c hne, hl], diff_succ c⟩, ⟨integ_zero c, integ_succ c⟩,
+    ⟨e1, e2, e3, diff2_mid n c hn⟩⟩
+
+/-- **T11 (the derivative shorthand `a'`, from the source string)**: `__double_prime` turns every name ending with a quote
+into `D{name}/D{t}` (twice: `a''` is `D{D{a}/D{t}}/D{t}`), so `Track.operate` on a source string whose names may carry
+the shorthand does what it does on the postfix tokens of the *unprimed* tree `unprime (unprime (desugar e))` — for the
+statement `lhs=e` and for the value form. T1, T3a–T3d and T6' then give the value / the stored column / the error of
+that tree; on a tree without any quote `unprime` is the identity (`unprime_of_noQuote`) and this is T7. -/
+theorem operate_source_prime (tr : Tr α) (lhs : Str) (e : Sx)
+    (hl : NameOK lhs) (hg : GoodTok lhs) (h : SrcOK e) (hp : PrimeOK (desugar e)) :
+    operate tr (lhs ++ '=' :: src e)
+        = operateTokens tr (lhs :: (Expr.post (unprime (unprime (desugar e))) ++ [['=']])) true
+    ∧ operate tr (src e)
+        = operateTokens tr (outputName :: (Expr.post (unprime (unprime (desugar e))) ++ [['=']])) false :=
+  ⟨operate_source_tokens_prime tr lhs e hl hg h hp, operate_source_value_tokens_prime tr e h hp⟩
+
+/-- … and its value: `operate(src e)` returns the tree semantics of the unprimed tree at every observation and leaves the
+track exactly as it was (`"a'"` evaluates `D{a}/D{t}`). -/
+theorem operate_source_prime_value (tr : Tr α) (e : Sx) (v : Val α) (h : SrcOK e) (hp : PrimeOK (desugar e))
+    (hw : WFx (unprime (unprime (desugar e)))) (hn : tr.n ≠ 0) (hnt : NoTemps tr) (hl : NoLitNames tr)
+    (hd : denoteM tr (unprime (unprime (desugar e))) = .ok v) :
+    operate tr (src e) = (.ok (some (v.toVec tr.n)), tr) := by
+  rw [operate_source_value_tokens_prime tr e h hp]
+  exact operateTokens_value tr _ v hw hn hnt hl hd
+
+/-- **T12 (a sign directly after a binary `+` or `-`: `a+-b`, `a--b`, `a++b`, `a-+b`)**: the last four replacements of
+`__unaryOp` merge two adjacent signs into the sign of their product. If `P o Q` is a printed source string (`pre` empty,
+or `lhs=`) in which `o` is a *binary* `+` or `-` (the character before it is neither `(` nor `{`), then typing the two
+signs `s1 s2` whose product is `o` (`SignPair`: `--` and `++` for `+`, `+-` and `-+` for `-`) in its place does not
+change what `operate` does (one pair per application). -/
+theorem operate_source_sign_pair (tr : Tr α) (pre : Str) (hp : PreOK pre) (e : Sx) (h : SrcOK e) (P Q : Str)
+    (s1 s2 o : Char) (hs : SignPair s1 s2 o) (hS : pre ++ src e = P ++ o :: Q)
+    (hP : ∃ P' c, P = P' ++ [c] ∧ c ≠ '(' ∧ c ≠ '{') :
+    operate tr (P ++ s1 :: s2 :: Q) = operate tr (pre ++ src e) :=
+  operate_sign_pair tr pre hp e h P Q s1 s2 o hs hS hP
+
 /-! ## non-vacuity -/
 
 /-- the laws are those of exact arithmetic: rationals with a NaN element satisfy them -/
@@ -497,5 +573,45 @@ example : getitemStr trEx "SUM{a}".toList = operate trEx "SUM{a}".toList :=
   getitem_is_operate trEx _ (by decide +kernel) (by decide +kernel)
 example : (getitemStr trEx "SUM{a}".toList).1.toOption = some (some [3, 3, 3]) ∧ (getitemStr trEx "b".toList).1.toOption = some (some [2, 2, 5]) := by
   decide +kernel
+
+/-- T9 on the toy scalar (whose comparison is a strict order): the first of two equal minima / maxima -/
+theorem toy_ord : @OrdLaws Int toy := @OrdLaws.mk Int toy (by intro a; simp [Scalar.lt]) (by
+  intro a b c h1 h2
+  simp only [Scalar.lt, decide_eq_true_eq] at h1 h2 ⊢
+  omega)
+example : argminL ([3, -7, 4, -7] : List Int) = 1 ∧ argmaxL ([3, 9, 4, 9] : List Int) = 1 ∧ minL ([3, -7, 4, -7] : List Int) = -7 := by
+  decide +kernel
+example : Scalar.lt (minL ([3, -7, 4, -7] : List Int)) Scalar.inf = true := by decide +kernel
+/-- T10: `D`, `I`, `D2` of `[1, 4, 9, 16]` -/
+example : diff ([1, 4, 9, 16] : List Int) = [0, 3, 5, 7] ∧ integ ([1, 4, 9, 16] : List Int) = [0, 4, 13, 29]
+    ∧ diff2 4 ([1, 4, 9, 16] : List Int) = [0, 2, 2, 0] := by decide +kernel
+/-- T11: `a'*10` is `D{a}/D{t}*10` (`a = [1, -2, 4]`, `t = [0, 10, 20]`; the toy division is the integer one, its NaN is 0) -/
+def pEx : Sx := .bin '*' (.var ['a', '\'']) (.num ['1', '0'])
+theorem pEx_src : src pEx = "a'*10".toList := by decide +kernel
+theorem pEx_ok : SrcOK pEx ∧ PrimeOK (desugar pEx) := by
+  refine ⟨by simp only [pEx, SrcOK, NameOK]; decide, ?_⟩
+  simp only [pEx, desugar, PrimeOK, VarOK, GoodTok]
+  refine ⟨by decide, ⟨by decide, by decide⟩, ⟨'0', rfl, by decide⟩⟩
+theorem pEx_unprime : unprime (unprime (desugar pEx))
+    = .bin '*' (.bin '/' (.call ['D'] (.var ['a'])) (.call ['D'] (.var ['t']))) (.num ['1', '0']) := by rfl
+/-- every hypothesis of `operate_source_prime_value` holds on a concrete string and track -/
+example : operate trEx "a'*10".toList = (.ok (some [0, -10, 0]), trEx) := by
+  have h := operate_source_prime_value trEx pEx (.vec [0, -10, 0]) pEx_ok.1 pEx_ok.2
+    (by rw [pEx_unprime]; simp only [WFx]; decide) (by decide) trEx_noTemps trEx_noLit (by rw [pEx_unprime]; rfl)
+  rw [pEx_src] at h
+  exact h
+example : (operate trEx "c=a'*10+b".toList).2.feats = trEx.feats ++ [(['c'], [2, -8, 5])]
+    ∧ (operate trEx "a''".toList).1.toOption = some (some [0, -1, 0]) := by decide +kernel
+
+/-- T12: `a+-b*2` is `a-b*2`, `c=a--b` is `c=a+b` -/
+def mEx : Sx := .bin '-' (.var ['a']) (.bin '*' (.var ['b']) (.num ['2']))
+example : operate trEx "a+-b*2".toList = operate trEx "a-b*2".toList := by
+  have h := operate_source_sign_pair trEx [] preOK_nil mEx (by simp only [mEx, SrcOK, NameOK]; decide) ['a'] "b*2".toList
+    '+' '-' '-' .pm (by decide +kernel) ⟨[], 'a', rfl, by decide, by decide⟩
+  have hs : ([] : Str) ++ src mEx = "a-b*2".toList := by decide +kernel
+  rw [hs] at h
+  exact h
+example : (operate trEx "a+-b*2".toList).1.toOption = some (some [-3, -6, -6])
+    ∧ (operate trEx "c=a--b".toList).2.feats = trEx.feats ++ [(['c'], [3, 0, 9])] := by decide +kernel
 
 end TV.C02
